@@ -41,6 +41,9 @@ pub fn str_wide() -> Vec<String> {
     v.push(js(&format!("{}y", "x".repeat(64))));
     v.push(js(&format!("{}z", "x".repeat(64))));
     v.push(js(&"ab,".repeat(30)));
+    // long arguments: 5000 and 70000 characters
+    v.push(js(&"lorem ipsum, ".repeat(385)));
+    v.push(js(&"0123456789".repeat(7000)));
     v
 }
 
@@ -72,6 +75,11 @@ fn seq(n: usize, f: impl Fn(usize) -> String) -> String {
 
 pub fn arr_num_wide() -> Vec<String> {
     let mut v: Vec<String> = ["[]", "[1]", "[1,2,3]", "[3,1,2]", "[1,1,1]", "[2,1,2,1]", "[0.5,1.5,-2]", "[1,1.0,1e0]", "[1,null,3]", "[1,\"a\",3]", "[-1,0,1]", "[1e200,1e200]", "[9007199254740993,9007199254740992]", "[0.1,0.2]", "[10,9,8,7,6,5,4,3,2,1]"].iter().map(|s| s.to_string()).collect();
+    v.push("[9223372036854775808]".into());
+    v.push("[18446744073709551615,1]".into());
+    v.push("[9223372036854775807,9223372036854775807,2]".into());
+    v.push("[-9223372036854775808,-1]".into());
+    v.push("[4611686018427387904,4611686018427387904]".into());
     v.push(seq(21, |i| format!("{}", (i * 7) % 5)));
     v.push(seq(40, |i| format!("{}", (i * 11) % 3)));
     v.push(seq(33, |i| format!("{}", 33 - i)));
@@ -174,7 +182,16 @@ pub fn pool(k: Kind) -> Vec<String> {
         }
         JsonText => own(JSONTEXT_LITS),
         ExprText => own(EXPRTEXT_LITS),
-        B64 => own(B64_LITS),
+        B64 => {
+            let mut v = own(B64_LITS);
+            // long inputs: 4500, 4095/4096/4097 and 12000 decoded bytes
+            v.push(js(&"YWJj".repeat(1500)));
+            v.push(js(&format!("{}YQ==", "YWJj".repeat(1365))));
+            v.push(js(&format!("{}YWI=", "YWJj".repeat(1365))));
+            v.push(js(&"YWJj".repeat(1366)));
+            v.push(js(&"w6nDqcOp".repeat(2000)));
+            v
+        }
         EnvName => own(ENVNAME_LITS),
         Arr => {
             let mut v = arr_num_wide();
